@@ -223,7 +223,9 @@ def strat_clean(draw, tier):
             "noisy": draw(st.lists(st.integers(0, nchans - 1), min_size=0, max_size=3, unique=True)),
             "method": draw(st.sampled_from(["mad", "iqrm"])), "thr": draw(st.sampled_from([2.0, 3.0, 5.0])),
             "ranges": draw(st.one_of(st.none(), range_list())), "f": draw(st.sampled_from([None, None, "every5", "neighbours"])),
-            "mask_value": draw(st.one_of(st.none(), st.integers(0, (1 << min(nbits, 8)) - 1))),
+            "mask_value": draw(st.one_of(st.none(), st.integers(0, (1 << min(nbits, 8)) - 1))) if nbits < 32
+            else draw(st.one_of(st.none(), st.sampled_from([0, 7, -1.5, -300.0, 2.5, 1e6, -1e-3]))),
+            "baseline": draw(st.sampled_from([100.0, 100.0, -50.0, 0.0])),
             "gulp": draw(st.integers(1, eff + 3)), "start": start, "nsamps": nsamps,
             "fch1": 1400.0, "foff": draw(st.sampled_from([-1.0, -0.1, 0.5]))}
 
@@ -232,9 +234,10 @@ def clean_data(case):
     rng = np.random.default_rng(case["seed"])
     N, nch, nbits = sum(case["split"]), case["nchans"], case["nbits"]
     if nbits == 32:
-        D = rng.normal(100, 5, (N, nch))
+        base = case.get("baseline", 100.0)  # float files may sit on a negative baseline (negative default mask value)
+        D = rng.normal(base, 5, (N, nch))
         for c in case["noisy"]:
-            D[:, c] = rng.normal(100, 60, N)
+            D[:, c] = rng.normal(base, 60, N)
         return np.round(D).astype(np.float32)
     top = (1 << nbits) - 1
     D = rng.integers(0, top + 1, (N, nch))
